@@ -73,7 +73,16 @@ static void captureInfo() {
   for (int i = 0; i < 700; i++) { S->ParseMessages(); g_now++; }
   S->sent.clear(); S->SendProductInformation(0); std::string p = reassembleFP(S->sent);
   S->sent.clear(); S->SendConfigurationInformation(0); std::string c = reassembleFP(S->sent);
-  g_infoLine = "info " + p + " " + c; delete S; g_now = keep;
+  // the interval the BAM data-packet timer is re-armed with (the statement only bounds it from below): measured on the scratch node
+  S->sent.clear(); { tN2kMsg m; m.Priority = 6; m.PGN = 130816UL; m.Destination = 255; m.DataLen = 30; memset(m.Data, 1, 30); m.SetIsTPMessage(true); S->SendMsg(m, 0); }
+  std::vector<uint64_t> dtAt; for (int i = 0; i < 2000 && dtAt.size() < 3; i++) { g_now++; size_t k = S->sent.size(); S->ParseMessages(); for (size_t q = k; q < S->sent.size(); q++) if (((S->sent[q].id >> 8) & 0x1ffff) >> 8 == 0xEB) dtAt.push_back(g_now); }
+  unsigned gap = 50;
+  if (dtAt.size() == 3) { gap = (unsigned)(dtAt[2] - dtAt[1]);
+#ifndef N2K_VERIF_T32
+    gap -= 1;            // 64-bit scheduler: IsTime() is `now > NextTime`
+#endif
+  }
+  g_infoLine = "info " + p + " " + c + " " + std::to_string(gap); delete S; g_now = keep;
 }
 static Node *NN[2] = {nullptr, nullptr};
 static int cur = 0;
@@ -200,18 +209,20 @@ static void txTimers(Mon &m, int dev) {
     const Frame *f = peekDT(m, m.addr[dev], 255);
     bool lossy = canSend(m, dev) != 1 || m.refused;          // a packet the library consumed need not have reached the bus
     std::vector<BamHyp> next; bool consumed = false;
+    // The statement bounds the distance of BAM data packets from below only ("at least 50 ms apart"): a packet may come at any poll
+    // from 50 ms on. For "transferred completely" the next packet has to come while a receiver still waits for it: J1939-21 T1 = 750 ms.
     for (auto &h : s.hyp) {
-      bool done = h.sent >= s.npk, due = !done && g_now > h.lastAct + 50, edge = !done && g_now == h.lastAct + 50;
-      if (f) { if ((due || edge) && dtContentOk(*f, s.pl, h.sent + 1)) { next.push_back({h.sent + 1, g_now}); consumed = true; } }
+      bool done = h.sent >= s.npk, may = !done && g_now >= h.lastAct + 50, must = !done && g_now > h.lastAct + 750;
+      if (f) { if (may && dtContentOk(*f, s.pl, h.sent + 1)) { next.push_back({h.sent + 1, g_now}); consumed = true; } }
       else {
-        if (!due) next.push_back(h);                           // nothing was due (or only at the boundary instant)
-        if ((due || edge) && lossy) next.push_back({h.sent + 1, g_now});
+        if (!must) next.push_back(h);                          // nothing had to come yet
+        if (may && lossy) next.push_back({h.sent + 1, g_now}); // consumed by the library, lost on the way to the bus
       }
     }
     if (next.empty()) {                                        // no reading explains what the library did: report against the first one
-      BamHyp h = s.hyp[0]; bool due = g_now > h.lastAct + 50, edge = g_now == h.lastAct + 50;
+      BamHyp h = s.hyp[0]; bool may = g_now >= h.lastAct + 50;
       if (!f) C.fail("C10:bam-stall", "dev %d: BAM data packet %d not sent %llu ms after the previous one", dev, h.sent + 1, (unsigned long long)(g_now - h.lastAct));
-      else if (!due && !edge) C.fail("C10:unexpected-frame:bam-dt-pacing", "poll: %s %llu ms after the previous BAM packet", frameStr(*f).c_str(), (unsigned long long)(g_now - h.lastAct));
+      else if (!may) C.fail("C10:unexpected-frame:bam-dt-pacing", "poll: %s %llu ms after the previous BAM packet", frameStr(*f).c_str(), (unsigned long long)(g_now - h.lastAct));
       else C.fail(std::string("C10:bam-dt-content:") + lenKey(s.pl.size()), "BAM packet %d is %s", h.sent + 1, frameStr(*f).c_str());
       if (f) m.pi++;
       s.st = 0; s.hyp.clear(); return;
@@ -455,7 +466,7 @@ static void exec(const std::string &line) {
   std::vector<std::string> w = split(line);
   if (w.empty()) return;
   if ((w[0] == "reset" || w[0] == "reset2") && w.size() >= 7) { doReset(w, w[0] == "reset" ? 0 : 1); return; }
-  if (w[0] == "info") { if (line != g_infoLine) C.fail("harness:info", "recorded product/configuration information differs from this build's"); return; }   // doReset writes the line itself
+  if (w[0] == "info") { if (line != g_infoLine && g_infoLine.compare(0, line.size(), line) != 0) C.fail("harness:info", "recorded product/configuration information differs from this build's"); return; }   // doReset writes the line itself
   C.op("%s", line.c_str()); C.count("op_" + w[0]); caseDesc += line; caseDesc += ';';
   if (w[0] == "node" && w.size() == 2) { int k = atoi(w[1].c_str()); if (k < 0 || k > 1 || !NN[k]) { C.out("bad-op"); return; } cur = k; C.out("ok"); return; }
   Node *N = NN[cur];
@@ -691,7 +702,7 @@ static void generate(Rng &R, const char *fl) {
     resetNode(R, fl, "reset", R.chance(1, 4) ? 2 : 1, 5, R.chance(1, 2) ? 1 : 2, 40);
     int dev = (int)R.below(M[0].nDev); std::vector<unsigned char> pl = payload(R, len);
     sendTP(dev, R.chance(1, 3) ? 130816UL : pickPgn(R), 255, pl, 1);
-    int npk = (len + 6) / 7; int cad = (int)R.below(5); uint64_t tEnd = g_now + 52ULL * npk + 200;
+    int npk = (len + 6) / 7; int cad = (int)R.below(5); uint64_t tEnd = g_now + 52ULL * npk + 1000;
     while (g_now < tEnd) { T(cad == 0 ? 1 : (cad == 1 ? 10 : (cad == 2 ? 50 : (cad == 3 ? 51 : R.range(0, 120))))); X("poll"); if (cad == 0 && R.chance(1, 40)) sendTP(dev, 126996UL, 255, pl); }
     X("st");
     sendTP(dev, 126998UL, PEER, payload(R, 20));      // a later transfer proceeds
@@ -821,7 +832,7 @@ static void generate(Rng &R, const char *fl) {
     T(R.range(5, 40)); request(WHAT[R.below(4)]);
     if (R.chance(1, 2)) { T(R.range(1, 30)); request(WHAT[R.below(3)]); }
     if (bam) {
-      uint64_t tEnd = g_now + 52ULL * npk + 700;
+      uint64_t tEnd = g_now + 52ULL * npk + 1000;
       while (g_now < tEnd) { T(R.chance(1, 2) ? 51 : R.range(10, 60)); X("poll"); if (R.chance(1, 60)) request(126996UL); }
     } else if (mode3 == 1) {
       for (int g = 0; g < 600; g += 30) { T(30); X("poll"); }
